@@ -339,58 +339,58 @@ Qed.
 
 Definition vbl (v : vres) : banlist := match v with Skip b | Fail b | Done b => b end.
 
-Lemma Inv_visit : forall c now outs a bl, Inv bl -> Inv (vbl (visit c now outs a bl)).
+Lemma Inv_visit : forall c tc bc outs a bl, Inv bl -> Inv (vbl (visit c tc bc outs a bl)).
 Proof.
-  intros c now outs a bl I. unfold visit. destruct (gate c now a bl) as [[f bl1]|] eqn:G; [|exact I].
-  pose proof (Inv_gate _ _ _ _ _ _ I G) as I1. pose proof (contact_spec now outs a f bl1) as S.
-  destruct (contact now outs a f bl1); cbn; [contradiction| |].
+  intros c tc bc outs a bl I. unfold visit. destruct (gate c (tc a) a bl) as [[f bl1]|] eqn:G; [|exact I].
+  pose proof (Inv_gate _ _ _ _ _ _ I G) as I1. pose proof (contact_spec (bc a) outs a f bl1) as S.
+  destruct (contact (bc a) outs a f bl1); cbn; [contradiction| |].
   - destruct S as [_ [r [E _]]]. subst. apply Inv_ban. exact I1.
   - destruct S as [E _]. subst. exact I1.
 Qed.
 
-Lemma Sub_visit : forall c now outs a bl, In a (servers c) -> Sub c bl -> Sub c (vbl (visit c now outs a bl)).
+Lemma Sub_visit : forall c tc bc outs a bl, In a (servers c) -> Sub c bl -> Sub c (vbl (visit c tc bc outs a bl)).
 Proof.
-  intros c now outs a bl Ia S. unfold visit. destruct (gate c now a bl) as [[f bl1]|] eqn:G; [|exact S].
-  pose proof (Sub_gate _ _ _ _ _ _ S G) as S1. pose proof (contact_spec now outs a f bl1) as C.
-  destruct (contact now outs a f bl1); cbn; [contradiction| |].
+  intros c tc bc outs a bl Ia S. unfold visit. destruct (gate c (tc a) a bl) as [[f bl1]|] eqn:G; [|exact S].
+  pose proof (Sub_gate _ _ _ _ _ _ S G) as S1. pose proof (contact_spec (bc a) outs a f bl1) as C.
+  destruct (contact (bc a) outs a f bl1); cbn; [contradiction| |].
   - destruct C as [_ [r [E _]]]. subst. apply Sub_ban; auto.
   - destruct C as [E _]. subst. exact S1.
 Qed.
 
 (** * The loop *)
 
-Lemma get_loop_Inv : forall c now outs todo bl, Inv bl -> Inv (snd (get_loop c now outs todo bl)).
+Lemma get_loop_Inv : forall c tc bc outs todo bl, Inv bl -> Inv (snd (get_loop c tc bc outs todo bl)).
 Proof.
   induction todo as [|a rest IH]; intros bl I; cbn; [exact I|].
-  pose proof (Inv_visit c now outs a bl I) as IV.
-  destruct (visit c now outs a bl) as [b|b|b]; cbn in IV.
+  pose proof (Inv_visit c tc bc outs a bl I) as IV.
+  destruct (visit c tc bc outs a bl) as [b|b|b]; cbn in IV.
   - apply IH; exact IV.
-  - specialize (IH b IV). destruct (get_loop c now outs rest b) as [[r ct] b2]. exact IH.
+  - specialize (IH b IV). destruct (get_loop c tc bc outs rest b) as [[r ct] b2]. exact IH.
   - exact IV.
 Qed.
 
-Lemma get_loop_Sub : forall c now outs todo bl, (forall a, In a todo -> In a (servers c)) -> Sub c bl ->
-  Sub c (snd (get_loop c now outs todo bl)).
+Lemma get_loop_Sub : forall c tc bc outs todo bl, (forall a, In a todo -> In a (servers c)) -> Sub c bl ->
+  Sub c (snd (get_loop c tc bc outs todo bl)).
 Proof.
   induction todo as [|a rest IH]; intros bl T S; cbn; [exact S|].
-  assert (SV : Sub c (vbl (visit c now outs a bl))) by (apply Sub_visit; [apply T; left; reflexivity|exact S]).
+  assert (SV : Sub c (vbl (visit c tc bc outs a bl))) by (apply Sub_visit; [apply T; left; reflexivity|exact S]).
   assert (T' : forall x, In x rest -> In x (servers c)) by (intros x I; apply T; right; exact I).
-  destruct (visit c now outs a bl) as [b|b|b]; cbn in SV.
+  destruct (visit c tc bc outs a bl) as [b|b|b]; cbn in SV.
   - apply IH; auto.
-  - specialize (IH b T' SV). destruct (get_loop c now outs rest b) as [[r ct] b2]. exact IH.
+  - specialize (IH b T' SV). destruct (get_loop c tc bc outs rest b) as [[r ct] b2]. exact IH.
   - exact SV.
 Qed.
 
 (** Contacted addresses come from [todo], in order; the returned address is the last contacted. *)
-Lemma get_loop_ct : forall c now outs todo bl res ct bl',
-  get_loop c now outs todo bl = (res, ct, bl') ->
+Lemma get_loop_ct : forall c tc bc outs todo bl res ct bl',
+  get_loop c tc bc outs todo bl = (res, ct, bl') ->
   (forall x, In x ct -> In x todo) /\ (forall y, res = Ok y -> In y ct) /\ res <> ErrInvalidShard.
 Proof.
   induction todo as [|a rest IH]; intros bl res ct bl' H; cbn in H.
   - inversion H; subst. repeat split; [intros x []|discriminate|discriminate].
-  - destruct (visit c now outs a bl) as [b|b|b].
+  - destruct (visit c tc bc outs a bl) as [b|b|b].
     + destruct (IH _ _ _ _ H) as [H1 [H2 H3]]. repeat split; auto. intros x I. right. auto.
-    + destruct (get_loop c now outs rest b) as [[r ct'] b2] eqn:E. inversion H; subst.
+    + destruct (get_loop c tc bc outs rest b) as [[r ct'] b2] eqn:E. inversion H; subst.
       destruct (IH _ _ _ _ E) as [H1 [H2 H3]]. repeat split; auto.
       * intros x [X|I]; [left; exact X|right; auto].
       * intros y Y. right. auto.
@@ -420,31 +420,31 @@ Qed.
 
 Section Loop.
   Variable c : cfg.
-  Variable now : Z.
+  Variables tc bc : addr -> Z.
   Variable outs : addr -> outcome.
   Hypothesis W : wfc c.
 
   (** c07_banned_bypassed, on the loop *)
   Lemma loop_bypass : forall todo bl res ct bl', NoDup todo -> Inv bl -> Sub c bl ->
     (forall a, In a todo -> In a (servers c)) ->
-    get_loop c now outs todo bl = (res, ct, bl') ->
-    forall a, In a ct -> is_banned a bl = true -> expired c now bl a = false ->
+    get_loop c tc bc outs todo bl = (res, ct, bl') ->
+    forall a, In a ct -> is_banned a bl = true -> expired c (tc a) bl a = false ->
     shard_down c (a_shard a) bl ct res.
   Proof.
     induction todo as [|x rest IH]; intros bl res ct bl' ND I S T H a Ia B E; cbn in H.
     - inversion H; subst. destruct Ia.
     - inversion ND as [|? ? NX ND']; subst.
       assert (T' : forall y, In y rest -> In y (servers c)) by (intros y Y; apply T; right; exact Y).
-      unfold visit in H. destruct (gate c now x bl) as [[f bl1]|] eqn:G.
-      + pose proof (contact_spec now outs x f bl1) as C.
+      unfold visit in H. destruct (gate c (tc x) x bl) as [[f bl1]|] eqn:G.
+      + pose proof (contact_spec (bc x) outs x f bl1) as C.
         assert (SELF : a = x -> shard_down c (a_shard a) bl ct res).
         { intros ->. apply shard_down_of_all; auto. eapply gate_banned_unexpired; eauto. }
-        destruct (contact now outs x f bl1) as [b|b|b]; [contradiction| |].
+        destruct (contact (bc x) outs x f bl1) as [b|b|b]; [contradiction| |].
         * destruct C as [_ [r [Eb _]]].
-          destruct (get_loop c now outs rest b) as [[r' ct'] b2] eqn:L. inversion H; subst res ct bl'. clear H.
+          destruct (get_loop c tc bc outs rest b) as [[r' ct'] b2] eqn:L. inversion H; subst res ct bl'. clear H.
           destruct (addr_eq_dec a x) as [AX|AX]; [auto|].
           destruct Ia as [Ia|Ia]; [congruence|].
-          destruct (get_loop_ct _ _ _ _ _ _ _ _ L) as [CT [RK _]].
+          destruct (get_loop_ct _ _ _ _ _ _ _ _ _ L) as [CT [RK _]].
           assert (NOKX : r' <> Ok x) by (intros X; apply NX, CT, RK; exact X).
           assert (I1 : Inv bl1) by (eapply Inv_gate; eauto).
           assert (S1 : Sub c bl1) by (eapply Sub_gate; eauto).
@@ -456,7 +456,7 @@ Section Loop.
           destruct (gate_find _ _ _ _ _ _ a G) as [F1|F1].
           -- (* the entry of a is untouched: induction *)
              assert (Bb : is_banned a b = true) by (unfold is_banned in *; rewrite Fb, F1; exact B).
-             assert (Eb' : expired c now b a = false) by (rewrite (expired_ext c now bl b a); [exact E|congruence]).
+             assert (Eb' : expired c (tc a) b a = false) by (rewrite (expired_ext c (tc a) bl b a); [exact E|congruence]).
              specialize (IH b r' ct' b2 ND' Ib Sb T' L a Ia Bb Eb').
              eapply shard_down_step; [|exact NOKX|exact IH].
              intros q Q. subst b. apply keys_ban in Q. destruct Q as [Q|Q]; [left; exact Q|right; eapply gate_keys; eauto].
@@ -473,7 +473,7 @@ Section Loop.
   (** A banned address that is not popped any more stays banned, unless its shard is reset. *)
   Lemma loop_keeps : forall todo bl res ct bl', NoDup todo -> Inv bl -> Sub c bl ->
     (forall a, In a todo -> In a (servers c)) ->
-    get_loop c now outs todo bl = (res, ct, bl') ->
+    get_loop c tc bc outs todo bl = (res, ct, bl') ->
     forall x, In x (keys bl) -> ~ In x todo -> In x (keys bl') \/ shard_down c (a_shard x) bl ct res.
   Proof.
     induction todo as [|y rest IH]; intros bl res ct bl' ND I S T H x Ix NX; cbn in H.
@@ -482,15 +482,15 @@ Section Loop.
       assert (T' : forall z, In z rest -> In z (servers c)) by (intros z Z; apply T; right; exact Z).
       assert (XY : x <> y) by (intros ->; apply NX; left; reflexivity).
       assert (NX' : ~ In x rest) by (intros Z; apply NX; right; exact Z).
-      unfold visit in H. destruct (gate c now y bl) as [[f bl1]|] eqn:G.
-      + pose proof (contact_spec now outs y f bl1) as C.
+      unfold visit in H. destruct (gate c (tc y) y bl) as [[f bl1]|] eqn:G.
+      + pose proof (contact_spec (bc y) outs y f bl1) as C.
         assert (I1 : Inv bl1) by (eapply Inv_gate; eauto).
         assert (S1 : Sub c bl1) by (eapply Sub_gate; eauto).
         destruct (in_dec addr_eq_dec x (keys bl1)) as [X1|X1].
-        * destruct (contact now outs y f bl1) as [b|b|b]; [contradiction| |].
+        * destruct (contact (bc y) outs y f bl1) as [b|b|b]; [contradiction| |].
           -- destruct C as [_ [r [Eb _]]].
-             destruct (get_loop c now outs rest b) as [[r' ct'] b2] eqn:L. inversion H; subst res ct bl'. clear H.
-             destruct (get_loop_ct _ _ _ _ _ _ _ _ L) as [CT [RK _]].
+             destruct (get_loop c tc bc outs rest b) as [[r' ct'] b2] eqn:L. inversion H; subst res ct bl'. clear H.
+             destruct (get_loop_ct _ _ _ _ _ _ _ _ _ L) as [CT [RK _]].
              assert (Ib : Inv b) by (subst b; apply Inv_ban; exact I1).
              assert (Sb : Sub c b) by (subst b; apply Sub_ban; [apply T; left; reflexivity|exact S1]).
              assert (Xb : In x (keys b)) by (subst b; apply keys_ban_keep; exact X1).
@@ -507,7 +507,7 @@ End Loop.
 
 Section Loop2.
   Variable c : cfg.
-  Variable now : Z.
+  Variables tc bc : addr -> Z.
   Variable outs : addr -> outcome.
   Hypothesis W : wfc c.
 
@@ -515,7 +515,7 @@ Section Loop2.
       banned, unless its shard was reset afterwards. *)
   Lemma loop_failed : forall todo bl res ct bl', NoDup todo -> Inv bl -> Sub c bl ->
     (forall a, In a todo -> In a (servers c)) ->
-    get_loop c now outs todo bl = (res, ct, bl') ->
+    get_loop c tc bc outs todo bl = (res, ct, bl') ->
     forall a, In a ct -> res <> Ok a -> a_role a = Replica ->
     In a (keys bl') \/ shard_down c (a_shard a) bl ct res.
   Proof.
@@ -523,14 +523,14 @@ Section Loop2.
     - inversion H; subst. destruct Ia.
     - inversion ND as [|? ? NX ND']; subst.
       assert (T' : forall z, In z rest -> In z (servers c)) by (intros z Z; apply T; right; exact Z).
-      unfold visit in H. destruct (gate c now x bl) as [[f bl1]|] eqn:G.
-      + pose proof (contact_spec now outs x f bl1) as C.
+      unfold visit in H. destruct (gate c (tc x) x bl) as [[f bl1]|] eqn:G.
+      + pose proof (contact_spec (bc x) outs x f bl1) as C.
         assert (I1 : Inv bl1) by (eapply Inv_gate; eauto).
         assert (S1 : Sub c bl1) by (eapply Sub_gate; eauto).
-        destruct (contact now outs x f bl1) as [b|b|b]; [contradiction| |].
+        destruct (contact (bc x) outs x f bl1) as [b|b|b]; [contradiction| |].
         * destruct C as [_ [r [Eb _]]].
-          destruct (get_loop c now outs rest b) as [[r' ct'] b2] eqn:L. inversion H; subst res ct bl'. clear H.
-          destruct (get_loop_ct _ _ _ _ _ _ _ _ L) as [CT [RK _]].
+          destruct (get_loop c tc bc outs rest b) as [[r' ct'] b2] eqn:L. inversion H; subst res ct bl'. clear H.
+          destruct (get_loop_ct _ _ _ _ _ _ _ _ _ L) as [CT [RK _]].
           assert (Ib : Inv b) by (subst b; apply Inv_ban; exact I1).
           assert (Sb : Sub c b) by (subst b; apply Sub_ban; [apply T; left; reflexivity|exact S1]).
           assert (KB : forall q, In q (keys b) -> q = x \/ In q (keys bl)).
@@ -538,7 +538,7 @@ Section Loop2.
           assert (NOKX : r' <> Ok x) by (intros X; apply NX, CT, RK; exact X).
           destruct (addr_eq_dec a x) as [AX|AX].
           -- subst a. assert (Xb : In x (keys b)) by (subst b; apply keys_ban_self; exact RA).
-             destruct (loop_keeps c now outs W rest b r' ct' b2 ND' Ib Sb T' L x Xb NX) as [K|D]; [left; exact K|right].
+             destruct (loop_keeps c tc bc outs W rest b r' ct' b2 ND' Ib Sb T' L x Xb NX) as [K|D]; [left; exact K|right].
              eapply shard_down_step; eauto.
           -- destruct Ia as [Ia|Ia]; [congruence|].
              destruct (IH b r' ct' b2 ND' Ib Sb T' L a Ia NOK RA) as [K|D]; [left; exact K|right].
@@ -549,17 +549,17 @@ Section Loop2.
 
   (** What a contacted address that was not handed out looked like, and vice versa. *)
   Lemma loop_outcomes : forall todo bl res ct bl',
-    get_loop c now outs todo bl = (res, ct, bl') ->
+    get_loop c tc bc outs todo bl = (res, ct, bl') ->
     (forall a, res = Ok a -> passes (outs a)) /\
     (forall a, NoDup todo -> In a ct -> res <> Ok a -> failing (outs a)).
   Proof.
     induction todo as [|x rest IH]; intros bl res ct bl' H; cbn in H.
     - inversion H; subst. split; [discriminate|intros a _ []].
-    - unfold visit in H. destruct (gate c now x bl) as [[f bl1]|] eqn:G.
-      + pose proof (contact_spec now outs x f bl1) as C.
-        destruct (contact now outs x f bl1) as [b|b|b]; [contradiction| |].
+    - unfold visit in H. destruct (gate c (tc x) x bl) as [[f bl1]|] eqn:G.
+      + pose proof (contact_spec (bc x) outs x f bl1) as C.
+        destruct (contact (bc x) outs x f bl1) as [b|b|b]; [contradiction| |].
         * destruct C as [F _].
-          destruct (get_loop c now outs rest b) as [[r' ct'] b2] eqn:L. inversion H; subst res ct bl'. clear H.
+          destruct (get_loop c tc bc outs rest b) as [[r' ct'] b2] eqn:L. inversion H; subst res ct bl'. clear H.
           destruct (IH _ _ _ _ L) as [H1 H2]. split; [exact H1|].
           intros a ND [Ia|Ia] NOK; [subst; exact F|]. inversion ND; subst. apply H2; auto.
         * destruct C as [_ [P _]]. inversion H; subst. split.
@@ -570,71 +570,71 @@ Section Loop2.
 
   (** c07_failover_silent (ii) / c07_refused_only_if_none_usable, on the loop. *)
   Definition usable (bl : banlist) (b : addr) : Prop :=
-    good (outs b) = true /\ (expired c now bl b = true \/ a_role b = Primary).
+    good (outs b) = true /\ (expired c (tc b) bl b = true \/ a_role b = Primary).
 
-  Lemma gate_usable : forall x bl, expired c now bl x = true \/ a_role x = Primary -> gate c now x bl <> None.
+  Lemma gate_usable : forall x bl, expired c (tc x) bl x = true \/ a_role x = Primary -> gate c (tc x) x bl <> None.
   Proof.
-    intros x bl U G. pose proof (gate_spec c now x bl) as S. rewrite G in S.
+    intros x bl U G. pose proof (gate_spec c (tc x) x bl) as S. rewrite G in S.
     destruct S as [_ [R [_ E]]]. destruct U; congruence.
   Qed.
 
   Lemma loop_progress : forall todo bl res ct bl',
-    get_loop c now outs todo bl = (res, ct, bl') ->
+    get_loop c tc bc outs todo bl = (res, ct, bl') ->
     (exists b, In b todo /\ usable bl b) -> exists b', res = Ok b'.
   Proof.
     induction todo as [|x rest IH]; intros bl res ct bl' H [b [Ib [Gb Ub]]]; cbn in H; [destruct Ib|].
     unfold visit in H. destruct (addr_eq_dec b x) as [BX|BX].
-    - subst b. destruct (gate c now x bl) as [[f bl1]|] eqn:G; [|exfalso; eapply gate_usable; eauto].
-      rewrite (contact_good now outs x f bl1 Gb) in H. inversion H; subst. eauto.
+    - subst b. destruct (gate c (tc x) x bl) as [[f bl1]|] eqn:G; [|exfalso; eapply gate_usable; eauto].
+      rewrite (contact_good (bc x) outs x f bl1 Gb) in H. inversion H; subst. eauto.
     - destruct Ib as [Ib|Ib]; [congruence|].
-      destruct (gate c now x bl) as [[f bl1]|] eqn:G.
-      + pose proof (contact_spec now outs x f bl1) as C.
-        destruct (contact now outs x f bl1) as [b0|b0|b0]; [contradiction| |].
+      destruct (gate c (tc x) x bl) as [[f bl1]|] eqn:G.
+      + pose proof (contact_spec (bc x) outs x f bl1) as C.
+        destruct (contact (bc x) outs x f bl1) as [b0|b0|b0]; [contradiction| |].
         * destruct C as [_ [r [Eb _]]].
-          destruct (get_loop c now outs rest b0) as [[r' ct'] b2] eqn:L. inversion H; subst res ct bl'. clear H.
+          destruct (get_loop c tc bc outs rest b0) as [[r' ct'] b2] eqn:L. inversion H; subst res ct bl'. clear H.
           eapply IH; [exact L|]. exists b. split; [exact Ib|]. split; [exact Gb|].
           destruct Ub as [Ub|Ub]; [left|right; exact Ub].
           assert (F0 : find_ban b b0 = find_ban b bl1).
           { subst b0. rewrite find_ban_role. destruct (a_role x); [reflexivity|].
             destruct (addr_eq_dec x b); [congruence|reflexivity]. }
           destruct (gate_find _ _ _ _ _ _ b G) as [F1|F1].
-          -- rewrite (expired_ext c now bl b0 b); [exact Ub|congruence].
+          -- rewrite (expired_ext c (tc b) bl b0 b); [exact Ub|congruence].
           -- apply expired_none. congruence.
         * inversion H; subst. eauto.
       + eapply IH; [exact H|]. exists b. repeat split; auto.
   Qed.
 
   Lemma loop_returned_not_banned : forall todo bl res ct bl', Inv bl ->
-    get_loop c now outs todo bl = (res, ct, bl') -> forall a, res = Ok a -> ~ In a (keys bl').
+    get_loop c tc bc outs todo bl = (res, ct, bl') -> forall a, res = Ok a -> ~ In a (keys bl').
   Proof.
     induction todo as [|x rest IH]; intros bl res ct bl' I H a E; cbn in H.
     - inversion H; subst. discriminate.
-    - pose proof (Inv_visit c now outs x bl I) as IV.
-      unfold visit in H, IV. destruct (gate c now x bl) as [[f bl1]|] eqn:G.
-      + pose proof (contact_spec now outs x f bl1) as C.
-        destruct (contact now outs x f bl1) as [b|b|b]; [contradiction| |].
-        * destruct (get_loop c now outs rest b) as [[r' ct'] b2] eqn:L.
+    - pose proof (Inv_visit c tc bc outs x bl I) as IV.
+      unfold visit in H, IV. destruct (gate c (tc x) x bl) as [[f bl1]|] eqn:G.
+      + pose proof (contact_spec (bc x) outs x f bl1) as C.
+        destruct (contact (bc x) outs x f bl1) as [b|b|b]; [contradiction| |].
+        * destruct (get_loop c tc bc outs rest b) as [[r' ct'] b2] eqn:L.
           assert (R1 : r' = res) by (inversion H; reflexivity).
           assert (R2 : b2 = bl') by (inversion H; reflexivity). subst r' b2.
           eapply IH; [exact IV|exact L|exact E].
         * destruct C as [Eb _]. assert (R1 : Ok x = res) by (inversion H; reflexivity).
           assert (R2 : b = bl') by (inversion H; reflexivity).
-          rewrite <- R1 in E. inversion E. rewrite <- R2, Eb, <- H1. exact (gate_self_out c now x bl f bl1 I G).
+          rewrite <- R1 in E. inversion E. rewrite <- R2, Eb, <- H1. exact (gate_self_out c (tc x) x bl f bl1 I G).
       + eapply IH; eauto.
   Qed.
 
   (** Not contacted addresses keep their entry or lose it; nobody else is ever inserted. *)
   Lemma loop_new_keys : forall todo bl res ct bl',
-    get_loop c now outs todo bl = (res, ct, bl') ->
+    get_loop c tc bc outs todo bl = (res, ct, bl') ->
     forall x, In x (keys bl') -> In x (keys bl) \/ In x ct.
   Proof.
     induction todo as [|y rest IH]; intros bl res ct bl' H x Ix; cbn in H.
     - inversion H; subst. left; exact Ix.
-    - unfold visit in H. destruct (gate c now y bl) as [[f bl1]|] eqn:G.
-      + pose proof (contact_spec now outs y f bl1) as C.
-        destruct (contact now outs y f bl1) as [b|b|b]; [contradiction| |].
+    - unfold visit in H. destruct (gate c (tc y) y bl) as [[f bl1]|] eqn:G.
+      + pose proof (contact_spec (bc y) outs y f bl1) as C.
+        destruct (contact (bc y) outs y f bl1) as [b|b|b]; [contradiction| |].
         * destruct C as [_ [r [Eb _]]].
-          destruct (get_loop c now outs rest b) as [[r' ct'] b2] eqn:L. inversion H; subst res ct bl'. clear H.
+          destruct (get_loop c tc bc outs rest b) as [[r' ct'] b2] eqn:L. inversion H; subst res ct bl'. clear H.
           destruct (IH _ _ _ _ L x Ix) as [K|K]; [|right; right; exact K].
           subst b. apply keys_ban in K. destruct K as [K|K]; [right; left; congruence|left; eapply gate_keys; eauto].
         * destruct C as [Eb _]. inversion H; subst. left. eapply gate_keys; eauto.
@@ -653,10 +653,10 @@ Proof.
   - intros a. rewrite <- in_rev. apply EQ.
 Qed.
 
-Lemma get_unfold : forall c req shard order outs now bl res ct bl',
-  get c req shard order outs now bl = (res, ct, bl') ->
+Lemma get_unfold : forall c req shard order outs tc bc bl res ct bl',
+  get c req shard order outs tc bc bl = (res, ct, bl') ->
   (effective_sel c shard = SInvalid /\ res = ErrInvalidShard /\ ct = [] /\ bl' = bl) \/
-  (effective_sel c shard <> SInvalid /\ get_loop c now outs (rev order) bl = (res, ct, bl')).
+  (effective_sel c shard <> SInvalid /\ get_loop c tc bc outs (rev order) bl = (res, ct, bl')).
 Proof.
   intros. unfold get in H. destruct (effective_sel c shard) eqn:E.
   - right. split; [discriminate|exact H].
@@ -664,15 +664,15 @@ Proof.
   - left. inversion H; subst. auto.
 Qed.
 
-Lemma get_Inv : forall c req shard order outs now bl, Inv bl -> Inv (snd (get c req shard order outs now bl)).
+Lemma get_Inv : forall c req shard order outs tc bc bl, Inv bl -> Inv (snd (get c req shard order outs tc bc bl)).
 Proof.
   intros. unfold get. destruct (effective_sel c shard); try (apply get_loop_Inv; assumption). exact H.
 Qed.
 
-Lemma get_Sub : forall c req shard order outs now bl, wf_order c req shard order -> Sub c bl ->
-  Sub c (snd (get c req shard order outs now bl)).
+Lemma get_Sub : forall c req shard order outs tc bc bl, wf_order c req shard order -> Sub c bl ->
+  Sub c (snd (get c req shard order outs tc bc bl)).
 Proof.
-  intros c req shard order outs now bl WF S. destruct (wf_order_rev _ _ _ _ WF) as [_ [T _]].
+  intros c req shard order outs tc bc bl WF S. destruct (wf_order_rev _ _ _ _ WF) as [_ [T _]].
   unfold get. destruct (effective_sel c shard); try (apply get_loop_Sub; assumption). exact S.
 Qed.
 
@@ -756,102 +756,102 @@ Lemma count_is_exact : forall c bl sh, wfc c -> reachable c bl ->
   (all_replicas_banned c bl sh = true <-> every_replica_banned c bl sh).
 Proof. intros c bl sh W R. destruct (reachable_Inv c bl R). apply all_banned_spec; assumption. Qed.
 
-Lemma returned_not_banned : forall c bl req shard order outs now a ct bl', reachable c bl ->
+Lemma returned_not_banned : forall c bl req shard order outs tc bc a ct bl', reachable c bl ->
   wf_order c req shard order ->
-  get c req shard order outs now bl = (Ok a, ct, bl') ->
+  get c req shard order outs tc bc bl = (Ok a, ct, bl') ->
   ~ In a (keys bl') /\ In a (candidates c req (effective_sel c shard)) /\ passes (outs a) /\ In a ct.
 Proof.
-  intros c bl req shard order outs now a ct bl' R WF H. destruct (reachable_Inv c bl R) as [I S].
-  destruct (get_unfold _ _ _ _ _ _ _ _ _ _ H) as [[_ [E _]]|[_ L]]; [discriminate|].
+  intros c bl req shard order outs tc bc a ct bl' R WF H. destruct (reachable_Inv c bl R) as [I S].
+  destruct (get_unfold _ _ _ _ _ _ _ _ _ _ _ H) as [[_ [E _]]|[_ L]]; [discriminate|].
   destruct (wf_order_rev _ _ _ _ WF) as [ND [T EQ]].
-  destruct (get_loop_ct _ _ _ _ _ _ _ _ L) as [CT [RK _]].
+  destruct (get_loop_ct _ _ _ _ _ _ _ _ _ L) as [CT [RK _]].
   split; [eapply loop_returned_not_banned; eauto|]. split; [apply EQ, CT, RK; reflexivity|].
-  split; [eapply (proj1 (loop_outcomes c now outs _ _ _ _ _ L)); reflexivity|apply RK; reflexivity].
+  split; [eapply (proj1 (loop_outcomes c tc bc outs _ _ _ _ _ L)); reflexivity|apply RK; reflexivity].
 Qed.
 
-Lemma banned_bypassed : forall c bl req shard order outs now res ct bl', wfc c -> reachable c bl ->
+Lemma banned_bypassed : forall c bl req shard order outs tc bc res ct bl', wfc c -> reachable c bl ->
   wf_order c req shard order ->
-  get c req shard order outs now bl = (res, ct, bl') ->
-  forall a, is_banned a bl = true -> expired c now bl a = false -> In a ct ->
+  get c req shard order outs tc bc bl = (res, ct, bl') ->
+  forall a, is_banned a bl = true -> expired c (tc a) bl a = false -> In a ct ->
   shard_down c (a_shard a) bl ct res.
 Proof.
-  intros c bl req shard order outs now res ct bl' W R WF H a B E Ia. destruct (reachable_Inv c bl R) as [I S].
-  destruct (get_unfold _ _ _ _ _ _ _ _ _ _ H) as [[_ [_ [E' _]]]|[_ L]]; [subst; destruct Ia|].
+  intros c bl req shard order outs tc bc res ct bl' W R WF H a B E Ia. destruct (reachable_Inv c bl R) as [I S].
+  destruct (get_unfold _ _ _ _ _ _ _ _ _ _ _ H) as [[_ [_ [E' _]]]|[_ L]]; [subst; destruct Ia|].
   destruct (wf_order_rev _ _ _ _ WF) as [ND [T EQ]].
   eapply loop_bypass; eauto.
 Qed.
 
 (** Contrapositive in the words of the property: while some replica of the shard is neither banned
     nor failing in this [get], a banned, unexpired replica of that shard is not contacted. *)
-Lemma banned_bypassed_while_other_up : forall c bl req shard order outs now res ct bl', wfc c -> reachable c bl ->
+Lemma banned_bypassed_while_other_up : forall c bl req shard order outs tc bc res ct bl', wfc c -> reachable c bl ->
   wf_order c req shard order ->
-  get c req shard order outs now bl = (res, ct, bl') ->
-  forall a r, is_banned a bl = true -> expired c now bl a = false ->
+  get c req shard order outs tc bc bl = (res, ct, bl') ->
+  forall a r, is_banned a bl = true -> expired c (tc a) bl a = false ->
   In r (servers c) -> a_role r = Replica -> a_shard r = a_shard a ->
   ~ In r (keys bl) -> (~ In r ct \/ res = Ok r) ->
   ~ In a ct.
 Proof.
-  intros c bl req shard order outs now res ct bl' W R WF H a r B E I1 I2 I3 NB UP Ia.
-  destruct (banned_bypassed _ _ _ _ _ _ _ _ _ _ W R WF H a B E Ia r I1 I2 I3) as [K|[K N]]; [contradiction|].
+  intros c bl req shard order outs tc bc res ct bl' W R WF H a r B E I1 I2 I3 NB UP Ia.
+  destruct (banned_bypassed _ _ _ _ _ _ _ _ _ _ _ W R WF H a B E Ia r I1 I2 I3) as [K|[K N]]; [contradiction|].
   destruct UP; contradiction.
 Qed.
 
-Lemma failover_failed_is_banned : forall c bl req shard order outs now res ct bl', wfc c -> reachable c bl ->
+Lemma failover_failed_is_banned : forall c bl req shard order outs tc bc res ct bl', wfc c -> reachable c bl ->
   wf_order c req shard order ->
-  get c req shard order outs now bl = (res, ct, bl') ->
+  get c req shard order outs tc bc bl = (res, ct, bl') ->
   forall a, In a ct -> res <> Ok a ->
   failing (outs a) /\ (a_role a = Replica -> In a (keys bl') \/ shard_down c (a_shard a) bl ct res).
 Proof.
-  intros c bl req shard order outs now res ct bl' W R WF H a Ia NOK. destruct (reachable_Inv c bl R) as [I S].
-  destruct (get_unfold _ _ _ _ _ _ _ _ _ _ H) as [[_ [_ [E' _]]]|[_ L]]; [subst; destruct Ia|].
+  intros c bl req shard order outs tc bc res ct bl' W R WF H a Ia NOK. destruct (reachable_Inv c bl R) as [I S].
+  destruct (get_unfold _ _ _ _ _ _ _ _ _ _ _ H) as [[_ [_ [E' _]]]|[_ L]]; [subst; destruct Ia|].
   destruct (wf_order_rev _ _ _ _ WF) as [ND [T EQ]]. split.
-  - eapply (proj2 (loop_outcomes c now outs _ _ _ _ _ L)); eauto.
+  - eapply (proj2 (loop_outcomes c tc bc outs _ _ _ _ _ L)); eauto.
   - intros RA. eapply loop_failed; eauto.
 Qed.
 
-Lemma failover_served : forall c bl req shard order outs now res ct bl', reachable c bl ->
+Lemma failover_served : forall c bl req shard order outs tc bc res ct bl', reachable c bl ->
   wf_order c req shard order ->
-  get c req shard order outs now bl = (res, ct, bl') ->
+  get c req shard order outs tc bc bl = (res, ct, bl') ->
   effective_sel c shard <> SInvalid ->
-  (exists b, In b (candidates c req (effective_sel c shard)) /\ usable c now outs bl b) ->
+  (exists b, In b (candidates c req (effective_sel c shard)) /\ usable c tc outs bl b) ->
   exists b', res = Ok b' /\ passes (outs b') /\ ~ In b' (keys bl') /\
              In b' (candidates c req (effective_sel c shard)).
 Proof.
-  intros c bl req shard order outs now res ct bl' R WF H V [b [Ib U]].
-  destruct (get_unfold _ _ _ _ _ _ _ _ _ _ H) as [[E' _]|[_ L]]; [contradiction|].
+  intros c bl req shard order outs tc bc res ct bl' R WF H V [b [Ib U]].
+  destruct (get_unfold _ _ _ _ _ _ _ _ _ _ _ H) as [[E' _]|[_ L]]; [contradiction|].
   destruct (wf_order_rev _ _ _ _ WF) as [ND [T EQ]].
-  destruct (loop_progress c now outs _ _ _ _ _ L) as [b' E]; [exists b; split; [apply EQ; exact Ib|exact U]|].
+  destruct (loop_progress c tc bc outs _ _ _ _ _ L) as [b' E]; [exists b; split; [apply EQ; exact Ib|exact U]|].
   subst res. exists b'. split; [reflexivity|].
-  destruct (returned_not_banned _ _ _ _ _ _ _ _ _ _ R WF H) as [A [B [C _]]]. auto.
+  destruct (returned_not_banned _ _ _ _ _ _ _ _ _ _ _ R WF H) as [A [B [C _]]]. auto.
 Qed.
 
-Lemma refused_only_if_none_usable : forall c bl req shard order outs now ct bl', reachable c bl ->
+Lemma refused_only_if_none_usable : forall c bl req shard order outs tc bc ct bl', reachable c bl ->
   wf_order c req shard order ->
-  get c req shard order outs now bl = (ErrAllDown, ct, bl') ->
+  get c req shard order outs tc bc bl = (ErrAllDown, ct, bl') ->
   forall b, In b (candidates c req (effective_sel c shard)) ->
-  good (outs b) = false \/ (is_banned b bl = true /\ expired c now bl b = false /\ a_role b = Replica).
+  good (outs b) = false \/ (is_banned b bl = true /\ expired c (tc b) bl b = false /\ a_role b = Replica).
 Proof.
-  intros c bl req shard order outs now ct bl' R WF H b Ib.
-  destruct (get_unfold _ _ _ _ _ _ _ _ _ _ H) as [[_ [E' _]]|[V L]]; [discriminate|].
+  intros c bl req shard order outs tc bc ct bl' R WF H b Ib.
+  destruct (get_unfold _ _ _ _ _ _ _ _ _ _ _ H) as [[_ [E' _]]|[V L]]; [discriminate|].
   destruct (good (outs b)) eqn:G; [right|left; reflexivity].
-  destruct (expired c now bl b) eqn:E.
-  - exfalso. destruct (failover_served _ _ _ _ _ _ _ _ _ _ R WF H V) as [b' [X _]]; [|discriminate].
+  destruct (expired c (tc b) bl b) eqn:E.
+  - exfalso. destruct (failover_served _ _ _ _ _ _ _ _ _ _ _ R WF H V) as [b' [X _]]; [|discriminate].
     exists b. split; [exact Ib|]. split; [exact G|left; exact E].
   - destruct (a_role b) eqn:RB.
-    + exfalso. destruct (failover_served _ _ _ _ _ _ _ _ _ _ R WF H V) as [b' [X _]]; [|discriminate].
+    + exfalso. destruct (failover_served _ _ _ _ _ _ _ _ _ _ _ R WF H V) as [b' [X _]]; [|discriminate].
       exists b. split; [exact Ib|]. split; [exact G|right; exact RB].
     + split; [|auto]. unfold is_banned. unfold expired in E. destruct (find_ban b bl); [reflexivity|discriminate].
 Qed.
 
-Lemma invalid_shard_only : forall c bl req shard order outs now ct bl',
-  get c req shard order outs now bl = (ErrInvalidShard, ct, bl') ->
+Lemma invalid_shard_only : forall c bl req shard order outs tc bc ct bl',
+  get c req shard order outs tc bc bl = (ErrInvalidShard, ct, bl') ->
   nshards c <> 1%nat /\ exists n, shard = Some n /\ (nshards c <= n)%nat /\ ct = [] /\ bl' = bl.
 Proof.
-  intros. destruct (get_unfold _ _ _ _ _ _ _ _ _ _ H) as [[E [_ [C B]]]|[_ L]].
+  intros. destruct (get_unfold _ _ _ _ _ _ _ _ _ _ _ H) as [[E [_ [C B]]]|[_ L]].
   - unfold effective_sel in E. destruct (Nat.eqb_spec (nshards c) 1) as [N1|N1]; [discriminate|]. split; [assumption|].
     destruct shard as [k|]; [|destruct (default_shard c); discriminate].
     destruct (Nat.ltb_spec k (nshards c)); [discriminate|]. exists k. auto.
-  - destruct (get_loop_ct _ _ _ _ _ _ _ _ L) as [_ [_ N]]. congruence.
+  - destruct (get_loop_ct _ _ _ _ _ _ _ _ _ L) as [_ [_ N]]. congruence.
 Qed.
 
 (** ** Unbanning *)
@@ -959,16 +959,16 @@ Lemma admin_ban_nonpositive : forall c h d now bl, d <= 0 -> admin_ban c h d now
 Proof. intros. unfold admin_ban. destruct (Z.leb_spec d 0); [reflexivity|lia]. Qed.
 
 (** (b): an address that comes back from a ban is health-checked even on a fresh connection. *)
-Lemma unbanned_is_health_checked : forall c now outs a bl fresh h,
+Lemma unbanned_is_health_checked : forall c tc bc outs a bl fresh h,
   is_banned a bl = true -> outs a = Conn fresh h -> h <> HcOk ->
-  match visit c now outs a bl with
+  match visit c tc bc outs a bl with
   | Skip b => b = bl
-  | Fail b => exists bl1, gate c now a bl = Some (true, bl1) /\ b = ban a FailedHealthCheck now bl1
+  | Fail b => exists bl1, gate c (tc a) a bl = Some (true, bl1) /\ b = ban a FailedHealthCheck (bc a) bl1
   | Done _ => False
   end.
 Proof.
-  intros c now outs a bl fresh h B O NH. unfold visit. pose proof (gate_spec c now a bl) as S.
-  destruct (gate c now a bl) as [[f bl1]|]; [|reflexivity]. destruct S as [F _]. rewrite B in F. subst f.
+  intros c tc bc outs a bl fresh h B O NH. unfold visit. pose proof (gate_spec c (tc a) a bl) as S.
+  destruct (gate c (tc a) a bl) as [[f bl1]|]; [|reflexivity]. destruct S as [F _]. rewrite B in F. subst f.
   unfold contact. rewrite O. cbn. destruct h; [congruence| |]; exists bl1; auto.
 Qed.
 
